@@ -353,6 +353,14 @@ def obligations(pid, tier):
                             continue
                         cases.append(dict(n=n, m=m, mode=mode, policy=policy, task=task, thr=thr, labels=lab,
                                           frames=fr, dim="3d"))
+    # three (label-incompatible) estimates reaching the second stage: tiny label sets keep this cheap in the quick tier
+    incompatible = {"est": [CAR], "gt": [PED, FP]}
+    for (n, m) in [(3, 2), (3, 3)]:
+        for mode in ("center", "iou2d"):
+            for task in ("detection", "fp_validation"):
+                for thr in ((False, True) if m == 2 else (False,)):
+                    cases.append(dict(n=n, m=m, mode=mode, policy="default", task=task, thr=thr, labels=incompatible,
+                                      frames=(m == 2), dim="3d"))
     # 2-D objects with ROI through the same table
     for (n, m) in [(1, 0), (1, 1), (2, 1), (1, 2)] + ([] if quick else [(2, 2)]):
         for mode in ("center", "iou2d"):
@@ -375,8 +383,10 @@ def obligations(pid, tier):
     if not quick:
         patterns += [((CAR, CAR), (CAR, CAR)), ((CAR, PED, UNK), (CAR, PED)), ((CAR, CAR, CAR), (CAR, CAR, CAR))]
     for el, gl in patterns:
-        for mode in (("center",) if quick else ("center", "iou2d")):
+        for mode in (("center",) if quick else ("center", "iou2d", "plane", "iou3d")):
             if mode == "iou2d" and len(el) + len(gl) > 4:
+                continue
+            if mode in ("plane", "iou3d") and len(el) + len(gl) > 3:
                 continue
             for policy in (("default", "allow_unknown") if len(set(el + gl)) > 1 else ("default",)):
                 for task in ("detection", "fp_validation"):
@@ -420,7 +430,8 @@ def meta(pid):
                      "{car,pedestrian,unknown,false_positive} (2x2: reduced label sets), 2 frame ids per object, 4 modes "
                      "(2x2: one distance + one IoU mode), 3 policies, detection/FP-validation (3-D and 2-D), thresholds "
                      "none or symbolic per label; real geometry: <= 2x2 boxes on a line, centre distance; ROI: <= 2x1",
-            "thorough": "abstract table up to 3x3; real geometry up to 3x3 (centre distance) and 2x2 (BEV IoU); ROI 2x2",
+            "thorough": "abstract table up to 3x3; real geometry up to 3x3 (centre distance), 2x2 (BEV IoU), 2x1 / 1x2 (plane "
+                        "distance, 3-D IoU); ROI 2x2",
         },
         "outside": ["more than 3 estimates or ground truths", "score ties are covered (non-strict greedy); float rounding",
                     "real-geometry runs for plane distance / 3-D IoU (their scores are C06's subject; the table "
